@@ -135,7 +135,13 @@ impl ReqMon {
                 if r.write && self.read_only {
                     Expect::Refuse(2)
                 } else if r.write && !self.overwrite && exists {
-                    Expect::Refuse(6)
+                    // "an existing file" is refused with ERROR 6; for an existing directory the statement
+                    // names no code, so any refusal from the listening port will do
+                    if target.as_ref().map_or(false, |t| t.is_dir()) {
+                        Expect::RefuseAny
+                    } else {
+                        Expect::Refuse(6)
+                    }
                 } else if !r.write && !exists {
                     Expect::Refuse(1)
                 } else {
@@ -502,11 +508,13 @@ pub struct LiveMon {
     /// a legitimate upload that runs while the hostile datagrams arrive: (stored path, content)
     pub upload_victim: Option<(PathBuf, Arc<Vec<u8>>)>,
     pub probes: BTreeMap<&'static str, u64>,
+    /// tasks parked in open(2) of a named pipe (nothing the server could do about those)
+    fifo_blocked: Vec<tftpd::verif::TaskId>,
 }
 
 impl LiveMon {
     pub fn new(probes_spec: Vec<(usize, Arc<Vec<u8>>)>) -> LiveMon {
-        LiveMon { attr: Attr::default(), probes_spec, upload_victim: None, probes: BTreeMap::new() }
+        LiveMon { attr: Attr::default(), probes_spec, upload_victim: None, probes: BTreeMap::new(), fifo_blocked: vec![] }
     }
 }
 
@@ -524,6 +532,7 @@ impl Monitor for LiveMon {
             Ev::End { panic: Some(_), .. } => {
                 *self.probes.entry("worker_panic_observed").or_insert(0) += 1;
             }
+            Ev::Fs { op, task: Actor::Task(t), .. } if *op == "open-blocks-on-fifo" => self.fifo_blocked.push(*t),
             Ev::Fs { op, path, .. } if *op == "server-new-failed" => {
                 return Some(Violation::new("C05", "C05.harness_server_boot_failed", format!("Server::new failed: {}", path.display())));
             }
@@ -548,6 +557,15 @@ impl Monitor for LiveMon {
                         Violation::new("C05", "C05.concurrent_upload_damaged", format!("a legitimate upload that ran while hostile datagrams arrived was stored as {:?} bytes instead of {}", other.ok().map(|f| f.len()), content.len()))
                             .sig("probe", "upload"),
                     );
+                }
+            }
+        }
+        if end == EndReason::Quiescent {
+            // nothing is left to happen: a transfer thread that is still there waits for ever and with it
+            // a socket, a file and (single port) a routing entry. "Any number of sources" then exhausts them.
+            for t in &self.attr.spawn_order {
+                if w.task_alive(*t) && !self.fifo_blocked.contains(t) {
+                    return Some(Violation::new("C05", "C05.transfer_thread_never_ends", format!("task{t}, started for {:?}, is still blocked although no event is pending: it will wait for ever (one thread, socket and file leaked per such request)", self.attr.client_of(*t))));
                 }
             }
         }
